@@ -15,8 +15,8 @@
 // checkpoint (Len, IsEmpty, Min, Max, t.max, node count, digest of the whole Inorder output, digest of
 // the whole shape through one cursor) on top of the per-call digest (result, Len, IsEmpty, Min, Max,
 // Get of the removed key); every fourth Remove is followed by Get of every key of the range and by
-// InorderAfter from around the removed key, the last one by a full Inorder.  Quick tier: above 48
-// remaining keys the removals go four to a macro (the per-call digests stay, checkpoints every fourth).
+// InorderAfter from around the removed key, the last one by a full Inorder (the whole sweep costs the
+// extracted model about 3 s, so the quick tier has it in full).
 // The observers also run on the new, still empty tree (before the first mutation) and a third of the
 // lines regrow the emptied tree to half the peak and drain it once more (max is then what the first
 // drain left).
@@ -65,17 +65,9 @@ func genDrainSweep(g *tr.G) {
 					b.op('A', t, ks{pat: pat, lo: lo, step: step, n: cnt, rep: 1, take: cnt, seed: r.Intn(1 << 30)})
 					idx := orderIdx(ord, cnt, r.Intn(1<<30))
 					for i := 0; i < len(idx); {
-						left := len(idx) - i // keys still in the tree
-						m := 1
-						if !g.Thorough() && left > 48+4 {
-							m = 4
-						}
-						var list []int
-						for j := i; j < i+m; j++ {
-							list = append(list, lo+step*idx[j])
-						}
+						list := []int{lo + step*idx[i]} // one Remove per macro: a checkpoint after every one
 						b.op('D', t, ks{pat: 'e', list: list})
-						i += m
+						i++
 						if i%4 == 0 || i == len(idx) {
 							k := list[len(list)-1]
 							b.op('Q', t, probeSeq(r, lo, step, cnt, 40)) // present, removed and never present keys over the whole range
